@@ -19,6 +19,8 @@ RULES = {
              "section/module/IR methods are same-name unions over their children",
     "R05.7": "boundary logic of the tree helpers as difference constraints: 'on' keeps exactly "
              "B < STOP and B+size > START with size != 0; 'at' keeps exactly begin-in-range",
+    "R12.x": "the lazy wrapper behind the index: edit-time capture, in-order replay or rebuild on "
+             "every path, queue cleared, client discipline (R12.2-R12.4, shared with C12)",
     "R05.6": "bias agreement: builders encode [b, b+size] as Interval(b, b+size+1) and every "
              "consumer of an interval end subtracts that bias",
 }
@@ -88,5 +90,12 @@ def run(chk: Check) -> None:
             delegation(chk, ir, "%s_blocks_%s" % (stem, s), [("attr", ("self",), "modules")], "R05.5")
     chk.floor("R05.5", "block lookup methods", n, 30)
     bias_consumers(chk, "R05.6", ["util", "section"])
+    from .c12 import _capture, _get, _ownership
+    lt = repo.cls("LazyIntervalTree")
+    sub = chk.sub()
+    _ownership(sub, lt)
+    _capture(sub, lt)
+    _get(sub, lt)
+    chk.adopt(sub)
     on_impl(chk, "R05.7")
     at_impl(chk, "R05.7")
